@@ -143,8 +143,8 @@ def c01(tier, seed):
                      "single-threaded deterministic runtime: real-thread races between application calls and the connection task are not explored"]
     return r.finish(rule_text=GENERAL_RULE, required_cov=["C01.SegContiguous", "C01.ReadIsPrefix", "C01.SegStable", "C01.NoGarbage"])
 
-std_check("C02", [("xfer_clean", 30, 400), ("xfer", 40, 800)] + KF,
-          ["C02.IdleWrite", "C02.IdleShutdown", "C02.NoStall", "C02.Silence", "C02.CompletesOk"],
+std_check("C02", [("xfer_clean", 30, 400), ("xfer", 40, 800), ("peer_recv", 24, 300)] + KF,
+          ["C02.IdleWrite", "C02.IdleShutdown", "C02.NoStall", "C02.Silence", "C02.CompletesOk", "C02.ReaderWoken"],
           assumptions=["liveness of the code is observed as completion without failure in virtual time over the explored schedules",
                        "application pauses and network delays stay below the configured inactivity timeout; the SYN itself is not dropped"])
 std_check("C03", [("close", 120, 2000), ("xfer", 20, 300), ("peer_recv", 32, 500)] + KF,
